@@ -24,7 +24,12 @@ META = dict(
                "sequences (compared inside Coq), and the Boolean form of the statement is evaluated on every observed "
                "sequence; a Python oracle re-checks the statement at every prefix of the real log. Ack callables are plain functions, "
                "`async def`s, or plain functions returning a Future / Task / object with __await__ (the acknowledgement of the last is "
-               "made only when it is awaited). Second family (implementation only, no model): whole runs of the real "
+               "made only when it is awaited). In a fifth of these cases the task functions take ARGUMENTS from the message: 1-3 "
+               "parameters annotated with what Python's typing offers (plain classes, generic aliases, Optional / Union, TypedDict "
+               "classes, Protocols, NewType, Literal, Annotated, pydantic models / dataclasses / enums, classes without a schema, "
+               "classes whose metaclass defines __instancecheck__ - also one that raises -, forward-reference strings, `from "
+               "__future__ import annotations`), passed positionally / by keyword / through *rest / not at all, with values of the "
+               "type, convertible, not convertible or null, validation on or off (--no-parse). Second family (implementation only, no model): whole runs of the real "
                "Receiver.listen() - prefetcher, hand-over queue, runner, one callback task per message - on saturating "
                "lock-step backlogs (several slots free at once, the runner dispatches several queued messages in one step), "
                "stop requests, budgets, with the statement re-checked over the raw log of the ack callables, task bodies "
